@@ -4,7 +4,8 @@ two "cells" (the entries of the mid-price and market-price series at the current
 Cells (exact source text): self._mid_prices[self.time] -> mid, self._market_prices[self.time] -> mp (both read and written),
 self._last_executed_prices[self.time] -> last (read only).  Other reads: self.get_best_buy_price() -> bb, self.get_best_sell_price() -> bs
 (Optional[float]), self.is_running -> running (bool).
-Statements: `x: Optional[float] = <read>` (a value local); `<cell> = e`; `if c: ... [elif ...] [else: ...]`.
+Statements: `x = e` / `x: Optional[float] = e` (a local, possibly assigned on several paths), a bare declaration `x: T`; `<cell> = e`;
+`if c: ... [elif ...] [else: ...]`; a bare `return`.
 Expressions (Optional[float] valued): locals, cells, None, float constants, + - * / (TypeError when an operand is None, as in Python),
 `a if c else b`; conditions: `x is None`, `x is not None`, `self.is_running`, not / and / or (short-circuit).
 Every expression is translated into the error monad, so an arithmetic operation on None is an error VALUE of the generated function; the
@@ -76,6 +77,10 @@ class Cells:
         s, rest = body[0], body[1:]
         if isinstance(s, ast.Expr) and isinstance(s.value, ast.Constant) and isinstance(s.value.value, str):
             return self.stmts(rest)
+        if isinstance(s, ast.Return) and s.value is None:
+            return "(POk (mid, mp))"
+        if isinstance(s, ast.AnnAssign) and s.value is None and isinstance(s.target, ast.Name):
+            return self.stmts(rest)              # a bare declaration `x: T`
         if isinstance(s, (ast.Assign, ast.AnnAssign)):
             tgt = s.targets[0] if isinstance(s, ast.Assign) and len(s.targets) == 1 else getattr(s, "target", None)
             if tgt is None or s.value is None:
@@ -84,9 +89,12 @@ class Cells:
             if tt in CELLS:
                 c = CELLS[tt]
                 return f"(pbindm {self.oq(s.value)} (fun {c} =>\n {self.stmts(rest)}))"
-            if isinstance(tgt, ast.Name) and tgt.id not in self.locals and ast.unparse(s.value) in READS and READS[ast.unparse(s.value)][1] == "OQ":
-                self.locals[tgt.id] = READS[ast.unparse(s.value)][0]
-                return self.stmts(rest)
+            if isinstance(tgt, ast.Name) and tgt.id not in ("mid", "mp", "last", "bb", "bs", "running"):
+                # an Optional[float] local (assigned again on another path = shadowed on that path)
+                v = f"v_{tgt.id}"
+                term = self.oq(s.value)
+                self.locals[tgt.id] = v
+                return f"(pbindm {term} (fun {v} =>\n {self.stmts(rest)}))"
             raise Unsupported("assignment " + ast.unparse(s)[:80])
         if isinstance(s, ast.If):
             # both branches continue with the rest of the method
